@@ -313,12 +313,39 @@ func c05R4(w *World, r *Report) {
 		return
 	}
 	var trigger *ssa.Call
+	var triggers []*ssa.Call
+	freshSlice := func(v ssa.Value) bool {
+		out := map[string]bool{}
+		sliceOrigins(w, v, map[ssa.Value]bool{}, out)
+		delete(out, "fresh")
+		return len(out) == 0
+	}
 	cl := &Classifier{
+		Instr: func(in ssa.Instruction) *Event {
+			// the live list replaced by a freshly allocated (or nil) one: the handed-off array is no longer the actor's
+			if st, ok := in.(*ssa.Store); ok && w.path(st.Addr) == "p:doneChans" && freshSlice(st.Val) {
+				return (&Event{}).kill("handedLive")
+			}
+			return nil
+		},
 		Call: func(site ssa.Instruction, c *ssa.CallCommon) *Event {
 			if w.isCallTo(c, "BloomSearchEngine.triggerFlush") {
 				if call, ok := site.(*ssa.Call); ok {
 					trigger = call
-					return ev("forwarded")
+					seen := false
+					for _, t := range triggers {
+						if t == call {
+							seen = true
+						}
+					}
+					if !seen {
+						triggers = append(triggers, call)
+					}
+					e := ev("forwarded")
+					if !freshSlice(c.Args[len(c.Args)-1]) {
+						e.May = append(e.May, "handedLive")
+					}
+					return e
 				}
 			}
 			if b, ok := c.Value.(*ssa.Builtin); ok && b.Name() == "copy" && len(c.Args) == 2 && w.path(c.Args[1]) == "*p:doneChans" {
@@ -341,11 +368,29 @@ func c05R4(w *World, r *Report) {
 		r.check(f.Must("forwarded") || f.Must("nowaiters"), rule, fmt.Sprintf("flushBufferedData:return#%d", i), w.instrPos(ret),
 			"returns only after the hand-off or with no waiter parked", "can return without calling triggerFlush while waiters are parked: those batches are never answered")
 	}
+	for i, ret := range fl.Returns() {
+		f := fl.Before(ret)
+		r.check(!f.May("handedLive"), rule, fmt.Sprintf("flushBufferedData:no-shared-waiter-array#%d", i), w.instrPos(ret),
+			"the queued request's waiter list shares no array with the actor's live list", "the waiter slice handed to triggerFlush can share its backing array with the actor's live list after this return (the list is handed over uncopied and then resliced or kept): the next accepted batch's append overwrites a queued waiter — one waiter is never answered and another is answered twice")
+	}
 	if trigger == nil {
 		r.undecided(rule, "flushBufferedData:triggerFlush", w.pos(fn.Pos()), "no plain call of triggerFlush found")
 		return
 	}
-	// the waiter slice handed over is the whole list
+	// the waiter slice handed over is the whole list (every hand-off site)
+	for ti, tr := range triggers {
+		if tr == trigger {
+			continue
+		}
+		a := tr.Call.Args[len(tr.Call.Args)-1]
+		pp := w.path(a)
+		okc := pp == "*p:doneChans"
+		if ms, ok := a.(*ssa.MakeSlice); ok && fl.Before(tr).Must("copied:"+pp) {
+			lv := w.leaves(ms.Len)
+			okc = len(lv) == 1 && lv["len(*p:doneChans)"]
+		}
+		r.check(okc, rule, fmt.Sprintf("flushBufferedData:handoff-arg#%d", ti+2), w.instrPos(tr), "waiters handed over whole", "triggerFlush receives "+pp+", which is not provably the whole list of parked waiters")
+	}
 	arg := trigger.Call.Args[len(trigger.Call.Args)-1]
 	p := w.path(arg)
 	f := fl.Before(trigger)
